@@ -34,6 +34,7 @@ def make_cases(tier, rng):
                   [(p, op) for p in ["grpc", "grpc", "netrpc"] for op in ["broker_p2h_reuse", "broker_h2p_reuse"]]):
         cases.append({"name": "l%d" % len(cases), "proto": p, "tls": "", "launch": rng.choice(["cmd", "runner"]), "ops": [op] + [rng.choice(OPS)]})
     cases.append({"name": "l%d" % len(cases), "proto": "grpc", "tls": "", "launch": "cmd", "ops": ["raw_accept_reuse", "broker_p2h"]})
+    cases.append({"name": "l%d" % len(cases), "proto": "grpc", "tls": "", "launch": "cmd", "ops": ["raw_accept_closed", rng.choice(["broker_p2h", "dispense"])]})
     # calls whose peer never comes (not with multiplexing, where gRPC keeps re-dialling for a while)
     for p in ["netrpc", "grpc"]:
         for _ in range(1 if tier == "quick" else 4):
